@@ -156,7 +156,7 @@ pub enum Outcome {
 
 /// Is this panic location inside the verification machinery (as opposed to code under test)
 fn is_harness_location(file: &str) -> bool {
-    file.contains("/simctl/src/") || file.contains("/shim-rustix/src/")
+    file.contains("simctl/src/") || file.contains("shim-rustix/src/")
 }
 
 fn short_path(file: &str) -> String {
